@@ -369,6 +369,42 @@ def a_socks_client_method_guard(prog):
     return True, "auth_v5 is reached only for a method that supported_methods offered; USRPWD is offered on the is_some() edge"
 
 
+
+def a_main_keeps_sender(prog):
+    """main() owns one Sender of the request queue for as long as it receives: recv() can then never yield None"""
+    m = prog.body_of(prog.one(r"^main$"))
+    ch = [c for c in m.calls if re.search(r"tokio::sync::mpsc::bounded::channel$", c.path or "")]
+    rv = [c for c in m.calls if re.search(r"mpsc::bounded::Receiver::<T>::recv$", c.path or "")]
+    if len(ch) != 1 or not rv:
+        return False, "main: channel() / recv() not found"
+    pair = ch[0].dest[0]
+    txs = set()
+    for b in m.reachable:
+        for st in m.stmts(b):
+            if st["k"] == "assign" and len(st["lhs"]) == 1 and st["rv"]["k"] == "use":
+                pl = op_place(st["rv"]["a"])
+                if pl and pl[0] == pair and [x for x in pl[1:] if x != "*"] == ["f:0"]:
+                    txs.add(st["lhs"][0])
+    if not txs:
+        return False, "main: the Sender half of the request queue is not bound"
+    gone = []
+    for b in m.reachable:
+        t = m.term(b)
+        if t and t["k"] == "drop" and t.get("p") and t["p"][0] in txs and len(t["p"]) == 1:
+            gone.append(b)
+        if t and t["k"] == "call":
+            for a in t["args"]:
+                if "m" in a and a["m"] and a["m"][0] in txs and len(a["m"]) == 1:
+                    gone.append(b)             # moved away (into a task, into a listener)
+    for b in gone:
+        if any(r.bb in m.reach_from(m.succ[b]) for r in rv):
+            return False, "main drops or gives away its Sender of the request queue at %s:bb%d and still receives afterwards: once the " \
+                          "listeners' clones are gone (no listener configured, an accept loop that ended) recv() yields None and the " \
+                          "unwrap aborts the process" % (m.file, b)
+    return True, "the Sender created with the queue is alive at every recv()"
+
+
+
 def a_target_set_before_enqueue(prog):
     n = 0
     for f in prog.fns.values():
